@@ -439,6 +439,7 @@ func (x *Exec) execInstr(fc *funcCtx, n *node, ins ssa.Instruction) {
 		r := x.alloc(st, "closure")
 		env[i] = ClosureV{Fn: fnv, Bindings: bs, Ref: r, Ty: i.Type()}
 	case *ssa.MapUpdate:
+		x.atMapUpdate(fc, n, i, op(i.Value))
 		x.mapUpdate(n, op(i.Map), op(i.Key), op(i.Value), i)
 	case *ssa.Lookup:
 		env[i] = x.lookup(n, op(i.X), op(i.Index), i)
@@ -1186,5 +1187,49 @@ func (x *Exec) atStore(fc *funcCtx, n *node, i *ssa.Store, ptr Value) {
 		cur := x.objGet(n.st, "ghost."+tk, IntS, lv.Obj)
 		internal := x.objGet(n.st, "ghost.internal", BoolS, lv.Obj)
 		x.Oblige("owned", fmt.Sprintf("write of %s needs the %s token of the object (%s)", key, tk, x.srcExpr(i.Pos(), "selector")), fmt.Sprint(i.Pos()), i.Pos(), n.guard, Or(Eq(cur, IntLit(2)), internal), x.P.Spec.FieldProps[key])
+	}
+}
+
+// atMapUpdate: ghost updates attached to a map store (`ghostat mapupdate <map type>#n: target = expr`, arg0 = the
+// stored value); n counts the stores into maps of that type in block order.
+func (x *Exec) atMapUpdate(fc *funcCtx, n *node, i *ssa.MapUpdate, val Value) {
+	if !fc.top {
+		return
+	}
+	name := "mapupdate " + typeName(i.Map.Type())
+	any := false
+	for _, cl := range fc.clauses {
+		if cl.Kind == "ghostat" && cl.Block == name {
+			any = true
+		}
+	}
+	if !any {
+		return
+	}
+	ord := 0
+	found := false
+	for _, b := range fc.fn.Blocks {
+		for _, bi := range b.Instrs {
+			if m2, ok := bi.(*ssa.MapUpdate); ok && typeName(m2.Map.Type()) == typeName(i.Map.Type()) {
+				ord++
+				if bi == ssa.Instruction(i) {
+					found = true
+					break
+				}
+			}
+		}
+		if found {
+			break
+		}
+	}
+	for _, cl := range fc.clauses {
+		if cl.Kind != "ghostat" || cl.Block != name || cl.Ord != ord {
+			continue
+		}
+		env := x.localSpecEnv(n.st, n.guard, true)
+		env.vars["arg0"] = val
+		x.applyGhostSet(cl, env, n.st)
+		x.reportSpecErrors(env, x.TopName, cl)
+		fc.atcallSeen[cl] = true
 	}
 }
